@@ -185,6 +185,8 @@ func c13Workloads(tier string) []c13Workload {
 				q("SELECT id, DATETIME_FORMAT(ADD_DAY(DATETIME('2012-02-03 09:18:15'), v), '%Y/%m/%d %H') AS d, FORMAT('%05d|%s', v, s) AS f, NOW() AS n FROM BIG WHERE k > 5"),
 				q("SELECT id, JSON_VALUE('a.b', '{\"a\":{\"b\":' || v || '}}') AS j, MD5(s) AS h, DATETIME('2020-01-0' || (k % 9 + 1)) AS d FROM BIG WHERE v < 40"),
 				q("DECLARE f13 FUNCTION (@x, @y) AS BEGIN IF @x IS NULL THEN RETURN @y; END IF; RETURN @x * 2 + @y; END; SELECT id, f13(v, k) AS u FROM BIG WHERE f13(k, 1) > 4")}},
+		{Name: "datetime-format", Sites: "the process-wide cache of converted --datetime-format strings (value.DatetimeFormats), first filled from inside the worker goroutines of ORDER BY / WHERE / GROUP BY: every query runs with a format the process has not seen yet", Special: "dtformat",
+			Queries: []string{q("SELECT id, s FROM BIG ORDER BY s, id LIMIT 20"), q("SELECT COUNT(*) FROM BIG WHERE s > '01.06.2010'"), q("SELECT s, COUNT(*) FROM BIG GROUP BY s")}},
 		{Name: "cancel", Sites: "loaders and worker loops while the context is cancelled", Special: "cancel",
 			Queries: []string{q("SELECT a.id, b.id FROM BIG a JOIN t2000 b ON a.v = b.v AND a.id < b.id")}},
 		{Name: "signal", Sites: "lib/cli commandAction: the signal goroutine and the read of signalReceived", Special: "signal",
@@ -257,10 +259,14 @@ func c13Child(name string, tier string) {
 		fmt.Println("C13-CHILD-DONE cancel")
 		return
 	}
-	for _, cpu := range cpus {
-		for _, src := range w.Queries {
+	for ci, cpu := range cpus {
+		for qi, src := range w.Queries {
 			tx := newTx(dir)
 			tx.Flags.SetCPU(cpu)
+			if w.Special == "dtformat" {
+				// what --datetime-format does; a new format each time, so that its first use is inside the workers
+				tx.Flags.SetDatetimeFormat(fmt.Sprintf("%%d.%%m.%%Y run %d/%d", ci, qi))
+			}
 			err := c13Exec(tx, context.Background(), src)
 			_ = tx.Rollback(query.NewReferenceScope(tx), nil)
 			_ = tx.ReleaseResources()
